@@ -1,12 +1,30 @@
 package main
 
 import (
+	"bufio"
 	"io"
 	"log"
 	"strings"
 
 	"github.com/evolbioinfo/gotree/io/newick"
+	"github.com/evolbioinfo/gotree/io/utils"
 )
+
+// glueRead reads a text through the path every command and API reader uses:
+// utils.ReadMultiTrees -> fileutils.ReadUntilSemiColon (bufio.Reader.ReadLine chunks) -> newick parser.
+// One record per delivered item: (id err) or (id "" tree audit).
+func glueRead(txt string) *Sexp {
+	recs := L()
+	for t := range utils.ReadMultiTrees(bufio.NewReader(strings.NewReader(txt)), utils.FORMAT_NEWICK) {
+		if t.Err != nil {
+			recs.List = append(recs.List, L(I(t.Id), A(errStr(t.Err))))
+			continue
+		}
+		d, audit := ObserveTree(t.Tree)
+		recs.List = append(recs.List, L(I(t.Id), A(""), d, audit))
+	}
+	return recs
+}
 
 func init() { register("C01", c01) }
 
@@ -25,23 +43,25 @@ func c01(c *Sexp) *Sexp {
 			return L(KV("bad", A("build: "+err.Error())))
 		}
 		txt := t.Newick()
+		glue := glueRead(txt)
 		t2, perr := newick.NewParser(strings.NewReader(txt)).Parse()
 		if perr != nil {
-			return L(KV("err", A(errStr(perr))), KV("text", A(txt)))
+			return L(KV("err", A(errStr(perr))), KV("text", A(txt)), KV("glue", glue))
 		}
 		d, audit := ObserveTree(t2)
-		return L(KV("err", A("")), KV("text", A(txt)), KV("tree", d), KV("audit", audit), KV("text2", A(t2.Newick())))
+		return L(KV("err", A("")), KV("text", A(txt)), KV("tree", d), KV("audit", audit), KV("text2", A(t2.Newick())), KV("glue", glue))
 	case "parse":
 		v := c.Get("text")
 		if v == nil || v.IsList {
 			return L(KV("bad", A("no text")))
 		}
+		glue := glueRead(v.Atom)
 		t2, perr := newick.NewParser(strings.NewReader(v.Atom)).Parse()
 		if perr != nil {
-			return L(KV("err", A(errStr(perr))))
+			return L(KV("err", A(errStr(perr))), KV("glue", glue))
 		}
 		d, audit := ObserveTree(t2)
-		return L(KV("err", A("")), KV("tree", d), KV("audit", audit))
+		return L(KV("err", A("")), KV("tree", d), KV("audit", audit), KV("glue", glue))
 	}
 	return L(KV("bad", A("unknown op")))
 }
